@@ -4,6 +4,7 @@
 package c03
 
 import (
+	"github.com/cloudwego/dynamicgo/vsync"
 	"bytes"
 	"context"
 	"fmt"
@@ -214,6 +215,27 @@ func (s *scen) run() core.Result {
 		r.Class = "panic"
 		r.Add(fmt.Sprintf("t2j.Do|%s|%s|panic@%s:%s", s.op, s.trigger, pi.Site, core.PanicClass(pi.Val)), "msg %s\npanic: %.300s\n%.1500s", cliphex(msg, 200), pi.Val, pi.Stack)
 		return r
+	}
+	{
+		// the same conversion with every pool of the library empty (all pooled objects fresh from their constructors)
+		vsync.Controlled = true
+		vsync.Reset()
+		var o4 []byte
+		var e4 error
+		ctx4, _ := mkctx()
+		pi4 := core.Catch(func() { o4, e4 = cv.Do(ctx4, desc, append([]byte{}, msg...)) })
+		vsync.Reset()
+		vsync.Controlled = false
+		r.Count("conversions", 1)
+		if pi4 != nil {
+			r.Class = "panic"
+			r.Add(fmt.Sprintf("t2j.Do|%s|fresh-pooled-objects|panic@%s:%s", s.op, pi4.Site, core.PanicClass(pi4.Val)), "msg %s\npanic: %.300s", cliphex(msg, 200), pi4.Val)
+			return r
+		}
+		if (e4 == nil) != (cerr == nil) || (e4 == nil && !bytes.Equal(o4, out)) {
+			r.Class = "violation"
+			r.Add(fmt.Sprintf("t2j.Do|%s|%s|differs-with-fresh-pooled-objects", s.op, s.trigger), "options %s\nmsg %s\nwith the pooled objects of this process: %s err=%v\nwith fresh ones: %s err=%v", s.optName, cliphex(msg, 200), clip(out, 200), cerr, clip(o4, 200), e4)
+		}
 	}
 	if cerr == nil && poolpoison.Aliased(out) {
 		r.Class = "violation"
